@@ -651,6 +651,10 @@ where
                         }
                     }
                     used_prio_indices.push(bin_op_idx);
+                    #[cfg(exmex_verif)]
+                    crate::verif::emit(|| {
+                        format!("{{\"ev\":\"fold\",\"form\":\"deep\",\"op\":{bin_op_idx},\"node\":{num_idx}}}")
+                    });
                 } else if num_idx > 0 && num_idx < priorities.len() - 1 {
                     if already_declined[num_idx + 1]
                         && priorities[num_idx + 1] > priorities[num_idx]
@@ -966,6 +970,75 @@ where
     attach_constant_op!(pi, T::from(std::f64::consts::PI));
     attach_constant_op!(e, T::from(std::f64::consts::E));
     attach_constant_op!(tau, T::from(std::f64::consts::TAU));
+}
+
+#[cfg(exmex_verif)]
+impl<T, OF, LM> DeepEx<'_, T, OF, LM>
+where
+    T: DataType,
+    OF: MakeOperators<T>,
+    LM: MatchLiteral,
+    <T as FromStr>::Err: Debug,
+{
+    /// Structural view of the expression as JSON, for verification harnesses only.
+    pub fn verif_dump(&self) -> String {
+        use crate::verif::json_str;
+        let nodes = self
+            .nodes
+            .iter()
+            .map(|n| match n {
+                DeepNode::Num(x) => {
+                    format!("{{\"k\":\"num\",\"v\":{}}}", json_str(&format!("{x:?}")))
+                }
+                DeepNode::Var((i, name)) => {
+                    format!("{{\"k\":\"var\",\"i\":{},\"n\":{}}}", i, json_str(name))
+                }
+                DeepNode::Expr(e) => format!("{{\"k\":\"expr\",\"e\":{}}}", e.verif_dump()),
+            })
+            .collect::<Vec<_>>();
+        let ops = self
+            .bin_ops
+            .ops
+            .iter()
+            .zip(self.bin_ops.reprs.iter())
+            .map(|(o, r)| {
+                format!(
+                    "{{\"idx\":{},\"repr\":{},\"prio\":{},\"comm\":{}}}",
+                    o.idx,
+                    json_str(r),
+                    o.op.prio,
+                    o.op.is_commutative
+                )
+            })
+            .collect::<Vec<_>>();
+        let un = self
+            .unary_op
+            .op
+            .funcs_to_be_composed()
+            .iter()
+            .map(|f| f.idx.to_string())
+            .collect::<Vec<_>>();
+        let un_reprs = self
+            .unary_op
+            .reprs
+            .iter()
+            .map(|r| json_str(r))
+            .collect::<Vec<_>>();
+        let vars = self
+            .var_names
+            .iter()
+            .map(|v| json_str(v))
+            .collect::<Vec<_>>();
+        format!(
+            "{{\"nodes\":[{}],\"ops\":[{}],\"un\":[{}],\"un_reprs\":[{}],\"vars\":[{}],\"text\":{}}}",
+            nodes.join(","),
+            ops.join(","),
+            un.join(","),
+            un_reprs.join(","),
+            vars.join(","),
+            json_str(&self.text)
+        )
+    }
 }
 
 impl<'a, T, OF, LM> Express<'a, T> for DeepEx<'a, T, OF, LM>
